@@ -38,6 +38,10 @@ type manifest struct {
 	FontDir string    `json:"font_dir"` // read-only user font directory shared by all children
 	Mult    int       `json:"mult"`     // CPU budget multiplier (2 when a candidate is re-run alone)
 	Ungated bool      `json:"ungated"`  // single-call re-run: no gating, parameters of Cases[i].ParamCall
+	// NoBallast: batches of tiny documents (core-struct) run without the GC ballast: their calls allocate
+	// little, and a child of a few hundred short calls would spend its time faulting in a heap that
+	// is allowed to grow to twice the ballast before the first collection.
+	NoBallast bool `json:"no_ballast,omitempty"`
 }
 
 // rec is one line of <dir>/log. "B" is appended (one write(2), O_APPEND) BEFORE the call, "E" after
@@ -133,9 +137,6 @@ var gcBallast []byte
 // childMain runs the calls of one batch, starting at C08_START = "case,call,readOK,validOK".
 func childMain(dir string) {
 	runtime.GOMAXPROCS(2)
-	if os.Getenv("C08_NOBALLAST") == "" {
-		gcBallast = make([]byte, 64<<20)
-	}
 	debug.SetMaxStack(maxStackBytes)
 	debug.SetMemoryLimit(softMemLimit)
 	lim := syscall.Rlimit{Cur: hardASLimit, Max: hardASLimit}
@@ -153,6 +154,9 @@ func childMain(dir string) {
 	var mf manifest
 	if err := json.Unmarshal(mb, &mf); err != nil {
 		die("manifest: %v", err)
+	}
+	if os.Getenv("C08_NOBALLAST") == "" && !mf.NoBallast {
+		gcBallast = make([]byte, 64<<20)
 	}
 	ci0, ki0, readOK, validOK := 0, 0, false, false
 	if s := os.Getenv("C08_START"); s != "" {
